@@ -161,6 +161,15 @@ func (p *Program) selectFunctions(prop string, pc *PropConfig) (ids []string, sw
 			}
 		}
 	}
+	for _, fm := range p.Contracts.Forbids {
+		if hasProp(fm.Props, prop) {
+			for id := range p.Funcs {
+				if id == fm.Pkg+".init" {
+					set[id] = true
+				}
+			}
+		}
+	}
 	if pc != nil {
 		for id, f := range p.FuncFile {
 			for _, sf := range pc.SweepFiles {
